@@ -69,14 +69,17 @@ func (app *AppData) Pack(buffer []byte) {
 	}
 
 	buffer[0] = byte(dataLength)
+	buffer[1] = byte(app.Command>>2) & 3
 
 	if app.Numbered {
 		buffer[1] |= 1<<6 | (app.SeqNumber&15)<<2
 	}
 
-	buffer[1] |= byte(app.Command>>2) & 3
-
-	copy(buffer[2:], app.Data)
+	if len(app.Data) > 0 {
+		copy(buffer[2:], app.Data[:dataLength])
+	} else {
+		buffer[2] = 0
+	}
 
 	buffer[2] &= 63
 	buffer[2] |= byte(app.Command&3) << 6
